@@ -105,7 +105,9 @@ def getOrNew (ps : List PeerSt) (p : Nat) : PeerSt × List PeerSt :=
     (st, ps ++ [st])
 
 def alloc (s : State) (p amount ticket : Nat) : State × List Event :=
-  let (st, peers) := getOrNew s.peers p
+  let r := getOrNew s.peers p
+  let st := r.1
+  let peers := r.2
   if fits s.total amount s.maxTotal && fits st.total amount s.maxPeer && st.pending.isEmpty then
     let st' := { st with total := add64 st.total amount }
     ({ s with total := add64 s.total amount, peers := setPeer peers st' },
